@@ -18,10 +18,14 @@ NameBlock(f) == Block(0, Pad8(f.name) \o <<f.type, f.dtype, f.gap>> \o W16(f.a1)
 RECURSIVE Chunks(_)
 Chunks(d) == IF Len(d) = 0 THEN <<>> ELSE IF Len(d) <= BLK THEN <<d>> ELSE <<SubSeq(d, 1, BLK)>> \o Chunks(SubSeq(d, BLK + 1, Len(d)))
 NChunks(n) == (n + BLK - 1) \div BLK
+\* a recorder may also cut the data into smaller blocks ("at most 255 bytes each"): lay.chunk, when present, is the payload size it uses
+RECURSIVE ChunksN(_, _)
+ChunksN(d, n) == IF Len(d) = 0 THEN <<>> ELSE IF Len(d) <= n THEN <<d>> ELSE <<SubSeq(d, 1, n)>> \o ChunksN(SubSeq(d, n + 1, Len(d)), n)
+ChunkOf(lay) == IF "chunk" \in DOMAIN lay THEN lay.chunk ELSE BLK
 Fill(b, n) == [k \in 1..n |-> b]
 \* lay = [blank, leader, gap]: run lengths of $00 / $55 filler before each header / data section, and between data blocks
 WriteFile(f, lay) == Fill(0, lay.blank) \o Fill(85, lay.leader) \o NameBlock(f) \o Fill(0, lay.blank) \o Fill(85, lay.leader)
-                     \o FlattenSeq([k \in 1..Len(Chunks(f.data)) |-> Block(1, Chunks(f.data)[k]) \o Fill(85, lay.gap)])
+                     \o (LET cs == ChunksN(f.data, ChunkOf(lay)) IN FlattenSeq([k \in 1..Len(cs) |-> Block(1, cs[k]) \o Fill(85, lay.gap)]))
                      \o Block(255, <<>>)
 WriteTape(fs, lay) == FlattenSeq([k \in 1..Len(fs) |-> WriteFile(fs[k], lay)])
 
@@ -55,7 +59,7 @@ ScanStep(t, s) ==
        ELSE CASE b.typ = 0 -> IF s.has \/ Len(b.pay) # 15 THEN Stop(s, "namefile")
                              ELSE [s EXCEPT !.p = b.next, !.has = TRUE, !.f = FileOfName(b.pay), !.nblocks = @ + 1, !.first = TRUE,
                                             !.noleader = @ + (IF HasLeader(t, q, s.p) THEN 0 ELSE 1)]
-              [] b.typ = 1 -> IF ~s.has \/ Len(b.pay) = 0 \/ Len(b.pay) > BLK THEN Stop(s, "datablock")
+              [] b.typ = 1 -> IF ~s.has \/ Len(b.pay) > BLK THEN Stop(s, "datablock")         \* "at most 255 bytes each": an empty data block is well formed too
                              ELSE [s EXCEPT !.p = b.next, !.f.data = @ \o b.pay, !.nblocks = @ + 1, !.first = FALSE,
                                             !.noleader = @ + (IF s.first /\ ~HasLeader(t, q, s.p) THEN 1 ELSE 0)]
               [] b.typ = 255 -> IF ~s.has \/ Len(b.pay) # 0 THEN Stop(s, "eofblock")
